@@ -103,7 +103,7 @@ KEEP = ("n_mov", "n_ref")
 def interleave(prog, run):
     run.rule("R-interleave", "per-setup observability rows are split block-major (stride = channels of the setup, column-major flatten) into reference / roving parts, "
              "re-based with O_mov . pinv(O_ref) . O1_ref, and assembled block by block at ii*n_DOF + [0, n_ref), then each setup's n_mov rows contiguously", 10)
-    fi = prog.func(FN)
+    fi = astq.IndexedFn(prog.func(FN))      # zip / enumerate loops as index loops
     f = rel(prog.mods[fi.mod].path)
     se = symidx.SymEval(prog, fi, stop={"n_mov", "n_ref"})
     pos, _, _, _ = astq.params_of(fi.node)
@@ -184,6 +184,7 @@ def interleave(prog, run):
     ra = symidx.range_args(se, symidx.is_range(prog, fi, outer.iter)) if outer is not None and symidx.is_range(prog, fi, outer.iter) is not None else None
     ob("assembly runs over the same br blocks", ra is not None and ra[0] == P.c(0) and ra[1] == br, f"range({', '.join(map(repr, ra)) if ra else '?'})", outer)
     n_dof = None
+    ref_end = None
     for st in stores:
         tgt = st.targets[0]
         el = astq.index_elts(tgt)
@@ -199,6 +200,7 @@ def interleave(prog, run):
         if inner is outer:
             # reference rows of block ii
             n_dof_expr = lo
+            ref_end = hi
             okpos = ii is not None and "n_mov" in repr(lo) and all(any(sn == ii for sn, e in k) for k in lo.t) and (hi - lo) == n_ref
             oksrc = slo is not None and shi is not None and slo == P.s(ii) * n_ref and (shi - slo) == n_ref
             ob("block ii: reference rows at ii*n_DOF + [0, n_ref), taken from block ii of the first setup's reference part", okpos and oksrc,
@@ -206,23 +208,43 @@ def interleave(prog, run):
         else:
             jj = inner.target.id if isinstance(inner.target, ast.Name) else None
             length = hi - lo
-            okl = jj is not None and f"n_mov[{jj}]" in repr(length).replace(" ", "") and len(length.t) == 1
-            oksrc = slo is not None and shi is not None and (shi - slo) == length and repr(slo).replace(" ", "") in (f"{ii}*n_mov[{jj}]", f"n_mov[{jj}]*{ii}")
-            # contiguity: the start is the previous end (loop-carried running offset)
+            ltxt = repr(length).replace(" ", "")
+            okl = jj is not None and ltxt == f"n_mov[{jj}]"
+            if not okl and "n_mov" not in ltxt:
+                okl = None if not length.is_const() else False
+            oksrc = None
+            if slo is not None and shi is not None:
+                oksrc = (shi - slo) == length and repr(slo).replace(" ", "") in (f"{ii}*n_mov[{jj}]", f"n_mov[{jj}]*{ii}")
+            # contiguity: the start is the previous end - either a loop-carried running offset, or the end of the reference rows plus
+            # the prefix sum of the roving counts of the earlier setups
             env = astq.env_at(fi.node.body, st)
             lo_e = el[0].lower
             hi_e = el[0].upper
-            contiguous = isinstance(lo_e, ast.Name) and isinstance(hi_e, ast.Name) and lo_e.id in env and isinstance(env[lo_e.id], ast.Name) and env[lo_e.id].id == hi_e.id
-            ob("block ii: each setup's roving rows follow contiguously (length n_mov[jj], source = block ii of that setup's re-based part)", okl and oksrc and contiguous,
-               f"target length {length!r}, source [{slo!r} : {shi!r}], start = previous end: {contiguous}", st)
+            contiguous = None
+            if isinstance(lo_e, ast.Name) and isinstance(hi_e, ast.Name) and lo_e.id in env and isinstance(env[lo_e.id], ast.Name):
+                contiguous = env[lo_e.id].id == hi_e.id
+            elif jj is not None and ref_end is not None:
+                ps = P.s(f"psum[n_mov,{jj}]")
+                rest = lo - ps
+                if not any(jj == sn or f",{jj}]" in sn or f"[{jj}]" in sn for k in rest.t for sn, e in k):
+                    contiguous = rest == ref_end
+            vals = [okl, oksrc, contiguous]
+            allok = False if any(v is False for v in vals) else (None if any(v is None for v in vals) else True)
+            ob("block ii: each setup's roving rows follow contiguously (length n_mov[jj], source = block ii of that setup's re-based part)", allok,
+               f"target [{lo!r} : +{length!r}], source [{slo!r} : {shi!r}], length ok: {okl}, source ok: {oksrc}, start = previous end: {contiguous}", st)
             srcbase = src.value if isinstance(src, ast.Subscript) else None
-            oks = isinstance(srcbase, ast.Subscript) and isinstance(srcbase.slice, ast.Name) and srcbase.slice.id == jj
-            ob("roving rows of setup jj are taken from the re-based block of setup jj", oks, f"source `{astq.src(st.value, 60)}`", st)
-    alloc = astq.expand(fi, ast.Name(id=gname, ctx=ast.Load()))
+            oks = None
+            if isinstance(srcbase, ast.Subscript) and not isinstance(srcbase.slice, (ast.Slice, ast.Tuple)):
+                oks = isinstance(srcbase.slice, ast.Name) and srcbase.slice.id == jj
+            ob("roving rows of setup jj are taken from the re-based block of setup jj", oks, f"source `{astq.src(src, 60)}`", st)
+    alloc = astq.expr_at(fi, rets[-1], ast.Name(id=gname, ctx=ast.Load()), keep=KEEP) if rets else None
     if isinstance(alloc, ast.Call) and astq.callee_name(prog, fi, alloc) in ("numpy.zeros", "numpy.empty", "numpy.full"):
         shp = alloc.args[0]
         rows = se.ev(shp.elts[0]) if isinstance(shp, ast.Tuple) else None
-        okr = rows is not None and "n_mov" in repr(rows) and all(pos[2] in "".join(s for s, e in k) for k in rows.t)
+        want = br * (P.s("n_ref") + P.s("sum(n_mov)"))
+        okr = None
+        if rows is not None:
+            okr = True if rows == want else (False if set(s_ for k in rows.t for s_, e in k) <= {pos[2], "n_ref", "sum(n_mov)"} else None)
         ob("global matrix has n_DOF * br rows", okr, f"rows = {rows!r}", None)
 
 
